@@ -90,15 +90,26 @@ func (e *FnEnc) run() {
 				v := e.vals[p]
 				switch t := p.Type().Underlying().(type) {
 				case *types.Pointer:
-					e.locals = append(e.locals, localRef{e.sorts().CellHeap(t.Elem()).Name, v.T})
+					e.locals = append(e.locals, localRef{e.sorts().CellHeap(t.Elem()).Name, v.T, nil})
 				case *types.Map:
 					s := e.sorts()
-					e.locals = append(e.locals, localRef{s.MapDom(t.Key()).Name, v.T}, localRef{s.MapVal(t.Key(), t.Elem()).Name, v.T}, localRef{MapLen.Name, v.T})
+					e.locals = append(e.locals, localRef{s.MapDom(t.Key()).Name, v.T, nil}, localRef{s.MapVal(t.Key(), t.Elem()).Name, v.T, nil}, localRef{MapLen.Name, v.T, nil})
 				}
 			}
 			if !found {
 				e.bindFail("owned "+o, "no such parameter")
 			}
+		}
+	}
+	// stateless: no package-level state is written below this function
+	if e.con != nil && e.con.Stateless != nil && clauseActive(e.con.Stateless.Clause, e.prop) {
+		gw := e.W.globalWrites(fn)
+		e.oblige(&Obligation{Name: "stateless.checked", Kind: "protocol", Clause: "package-level state written below this function is limited to the declared exceptions", Tags: e.con.Stateless.Tags, Guard: "true", Goal: "true"})
+		for _, g := range sortedKeys(gw) {
+			if e.con.Stateless.Except[g] {
+				continue
+			}
+			e.oblige(&Obligation{Name: "stateless." + g, Kind: "protocol", Clause: "package-level variable " + g + " is written or mutated (" + gw[g] + "): the result may depend on what ran before", Tags: e.con.Stateless.Tags, Guard: "true", Goal: "false"})
 		}
 	}
 	if fn.Signature.Recv() != nil && len(fn.Params) > 0 {
@@ -317,7 +328,8 @@ func (e *FnEnc) block(b *ssa.BasicBlock) {
 	for _, p := range phis {
 		e.bagInstr(p)
 	}
-	for _, in := range b.Instrs {
+	for k, in := range b.Instrs {
+		e.curIdx = k
 		switch t := in.(type) {
 		case *ssa.Phi:
 		case *ssa.If:
@@ -702,6 +714,9 @@ func (e *FnEnc) loopHeader(b *ssa.BasicBlock, li *loopInfo, fwd []*ssa.BasicBloc
 			e.assume(e.frameFact(nw, old, li.preAlloc, li.modRefs[name]))
 		} else {
 			for _, l := range e.locals {
+				if l.esc.escapedAt(li.header, 0) {
+					continue // the object may have escaped on an earlier iteration
+				}
 				if l.heap == name && !e.writtenInLoop(li, l.ref) {
 					e.assume(sx("=", sx("select", nw, l.ref), sx("select", old, l.ref)))
 				}
